@@ -107,7 +107,10 @@ def distorted_counts(per_mode):
     of the pivot-anchored residual (where only the doubled rough tolerance of the search keeps an operation)."""
     reqs, _ = per_mode.get("meta", ([], []))
     b = [l for l in reqs if (pipe.seg(l, "tsteps") or "").find("distort") >= 0 and "-B ;" in l[:40]]
-    return {"distorted_pairs": len(b), "distorted_pairs_in_rough_band": sum(1 for l in b if "distort-rough" in pipe.seg(l, "tsteps"))}
+    scan = [l for l in reqs if "facescan" in (pipe.seg(l, "tsteps") or "")]
+    import re as _re
+    nscan = sum(int(_re.search(r"facescan(\d+)", pipe.seg(l, "tsteps")).group(1)) for l in scan)
+    return {"face_scan_pairs": len(scan), "face_scan_placements_evaluated": nscan, "distorted_pairs": len(b), "distorted_pairs_in_rough_band": sum(1 for l in b if "distort-rough" in pipe.seg(l, "tsteps"))}
 
 
 def run(tier, seed):
@@ -119,7 +122,9 @@ def run(tier, seed):
                                       "(re-basing with entries up to 6, origin shift, rigid rotation, permutation, added lattice vectors, scaling 1e-2..1e3 with symprec, "
                                       "supercell of index 2..4, mirror image); plus 90 (quick) / 530 (thorough) pairs of *distorted* crystals (half of the atoms displaced by 0.25-0.45 symprec, "
                                       "premise validated by a brute-force residual profile: every generating operation fits within 0.8 symprec, pivot-anchored within 1.6 symprec, "
-                                      "nothing else within 1.3 symprec) whose re-description always reorders the atoms; compared: number (11 enantiomorphic pairs exchanged under mirror), Hall number, Pearson symbol, "
+                                      "nothing else within 1.3 symprec) whose re-description always reorders the atoms; plus a face scan: 120 (quick) / 500 (thorough) distorted crystals with a "
+                                      "pivot-anchored residual of 1.2-1.6 symprec, description B = origin moved so that one atom lies just inside / outside a cell face (all atoms x axes x 6 offsets "
+                                      "evaluated natively, B = first placement whose answer differs, else a random one); compared: number (11 enantiomorphic pairs exchanged under mirror), Hall number, Pearson symbol, "
                                       "operations per primitive cell, orbit partition through the site map, Wyckoff multiplicity and orientation-free site-symmetry symbol per atom; "
                                       "non-trivial = the re-described member of a pair that returned a dataset",
                               "explanation": "level other: covariance of the specification is proved in Lean (Props/C04.lean: origin shift, added lattice vectors, rigid rotation, scaling, "
